@@ -816,7 +816,8 @@ def load_single(path, flags=None, extra_args=('--all-headers',)):
 
 def implied(fn, cond, pol, depth=0):
     """DNF (list of conjunctions) of atoms implied by `cond` evaluating to `pol`.
-    atom = ('cmp', lhs_node, op, rhs_node)  comparison that holds
+    atom = ('cmp', lhs_node, op, rhs_node, as_written)  comparison that holds; as_written = the source comparison
+                                                         itself evaluated true (False: it is the negation of a false one)
          | ('b', key, polarity, node)       opaque boolean atom"""
     c = fn.strip(cond)
     v = fn.nodes.get(c, {})
@@ -838,10 +839,10 @@ def implied(fn, cond, pol, depth=0):
         return [p + q for p in ct for q in x] + [p + q for p in cf for q in y]
     if k == 'BinaryOperator' and v.get('op') in CMP_MIRROR:
         op = v['op'] if pol else CMP_NEG[v['op']]
-        return [[('cmp', v['lhs'], op, v['rhs'])]]
+        return [[('cmp', v['lhs'], op, v['rhs'], pol)]]
     if k == 'CXXOperatorCallExpr' and v.get('op') in CMP_MIRROR and len(v.get('args', [])) == 2:
         op = v['op'] if pol else CMP_NEG[v['op']]
-        return [[('cmp', v['args'][0], op, v['args'][1])]]
+        return [[('cmp', v['args'][0], op, v['args'][1], pol)]]
     if k == 'CXXOperatorCallExpr' and v.get('op') == '!' and len(v.get('args', [])) == 1:
         return [[('b', fn.key(v['args'][0]), not pol, v['args'][0])]]
     if 'v' in v and k not in ('CallExpr', 'CXXMemberCallExpr'):
@@ -855,7 +856,7 @@ def atom_key(fn, a):
     """(key, polarity) of an atom, comparisons canonicalised (constants right, != as negated ==, > as mirrored <)"""
     if a[0] == 'b':
         return a[1], a[2]
-    _, l, op, r = a
+    l, op, r = a[1], a[2], a[3]
     lk, rk = fn.key(l), fn.key(r)
     if lk.startswith('#') and not rk.startswith('#'):
         lk, rk, op = rk, lk, CMP_MIRROR[op]
